@@ -541,6 +541,10 @@ class Executor(object):
         self.fn_node = fn
         self.top_fn_node = fn
         self.check_signature(contract, fn)
+        is_gen = any(isinstance(n, (ast.Yield, ast.YieldFrom)) for n in ast.walk(fn))
+        if (contract.gen is not None) != is_gen:
+            raise Unsupported('%s is %sa generator but its contract says the opposite: the guard / effects would run at a different time'
+                              % (contract.key, '' if is_gen else 'not '))
         from . import roles
         self.local_aliases = roles.aliases(contract.key, self.twin, fn)      # contract's name for a local -> its current name
         while self.work:
